@@ -27,6 +27,7 @@ class Loopback:
         self.records: List[dict] = []
         self.runner = None
         self.port = None
+        self.drop_next = 0          # connection faults to inject: the next n requests are received, then the connection is closed
 
     async def start(self):
         app = web.Application()
@@ -69,6 +70,12 @@ class Loopback:
                        ts_ms=int(params.get("timestamp", "0") or 0), version="", content_type=request.headers.get("Content-Type", ""))
         rec["params"] = dict(parse_qsl(raw_qs, keep_blank_values=True)) | dict(parse_qsl(body.decode("utf-8", "replace"), keep_blank_values=True))
         self.records.append(rec)
+        rec["dropped"] = False
+        if self.drop_next > 0:
+            # the exchange received (and will remember) the request, but the connection goes away before any reply
+            self.drop_next -= 1
+            rec["dropped"] = True
+            request.transport.close()
         return web.json_response({"ok": True, "orderId": 1, "listenKey": "k", "token": "t", "user_id": 1, "id": "1"})
 
 
@@ -168,19 +175,21 @@ async def run_batch(cases: List[dict], limiter_wait: float = 0.0) -> List[dict]:
                     if case.get("only") and label not in case["only"]:
                         continue
                     n0 = len(srv.records)
+                    srv.drop_next = int(case.get("drop", 0))
                     t_call = time.time()
                     err = ""
                     try:
                         await fn()
                     except Exception as e:  # noqa: BLE001
                         err = f"{type(e).__name__}: {e}"
+                    srv.drop_next = 0
                     for rec in srv.records[n0:]:
                         out.append(dict(rec, label=label, case=case, call_ms=int(t_call * 1000), err=err))
                     if len(srv.records) == n0:
                         out.append({"label": label, "case": case, "err": err or "no request received", "exchange": case["exchange"],
                                     "signed": False, "key_ok": False, "sig_ok": False, "nonce": "", "ts_ms": 0, "recv_ms": 0,
                                     "call_ms": int(t_call * 1000), "raw_qs": "", "body": "", "params": {}, "method": "", "path": "",
-                                    "version": "", "content_type": ""})
+                                    "version": "", "content_type": "", "dropped": False})
     finally:
         await srv.stop()
     return out
